@@ -39,6 +39,18 @@ def q4_both(v32):
     return {q4(v32)}
 
 
+def q4_column(col32):
+    """q4 of every value of a float32 column.  Values whose double product with 10^4 is clearly off a half-way point (further than 1e-3 while
+    the product's rounding error is below 1.2e-4 for |v·10^4| <= 1e12) are rounded in double arithmetic; all others go through `decimal`."""
+    v = np.asarray(col32, dtype=np.float32).astype(np.float64) * 1e4
+    with np.errstate(invalid="ignore"):
+        lo = np.floor(v)
+        frac = v - lo
+        sure = np.isfinite(v) & (np.abs(v) <= 1e12) & (np.abs(frac - 0.5) >= 1e-3)
+    out = [int(a) + (1 if f > 0.5 else 0) if ok else q4(x) for a, f, ok, x in zip(np.where(sure, lo, 0).tolist(), frac.tolist(), sure.tolist(), col32)]
+    return out
+
+
 # Values next to a rounding threshold of the last decimal the format carries, at every magnitude INCLUDING below one unit of that
 # decimal: (k + f) * 1e-4 for k units of the last decimal and a fractional part f around the half-way point.  Uniform coordinates
 # practically never fall there (k = 0 is a window of width 1e-4 next to zero), and that is where "too small to matter" shortcuts, truncation
@@ -173,6 +185,79 @@ def do_before(d, tmpdir):
 COMMENTS = ["plain comment", "  leading blanks", "", "   ", "\t", "x: 1, y: 2", "# nested hash", "ends with blanks   ", "CREATED BY tool", "id of the cell: 7"]
 
 
+# family "chars": the TEXT of a comment over the whole character repertoire, not only printable ASCII.  A comment is one line of text: anything
+# but the line terminators LF / CR may occur in it - control characters (tab, form feed as a page break, the FS/GS/RS/US separators of old
+# exports, NUL, DEL), C1 controls (NEL), Latin-1, the Unicode blanks, LINE / PARAGRAPH SEPARATOR (pasted from rich-text tools), invisible format
+# characters (zero-width, bidi marks, BOM, soft hyphen), letters of other scripts, combining marks, private use, non-characters, and code points
+# beyond the BMP.  The strata are ranges of code points; a member is drawn from the rng (a range, then a code point of it).
+CHAR_STRATA = {
+    "c0": [(0x00, 0x09), (0x0B, 0x0C), (0x0E, 0x1F), (0x7F, 0x7F)],
+    "c1": [(0x80, 0x9F)],
+    "latin1": [(0xA0, 0xFF)],
+    "space": [(0x1680, 0x1680), (0x2000, 0x200A), (0x202F, 0x202F), (0x205F, 0x205F), (0x3000, 0x3000)],
+    "linesep": [(0x2028, 0x2029)],
+    "format": [(0xAD, 0xAD), (0x200B, 0x200F), (0x202A, 0x202E), (0x2060, 0x2064), (0xFEFF, 0xFEFF)],
+    "bmp": [(0x300, 0x36F), (0x370, 0x3FF), (0x400, 0x4FF), (0x5D0, 0x5EA), (0x600, 0x6FF), (0x3040, 0x30FF), (0x4E00, 0x9FFF), (0xE000, 0xF8FF),
+            (0xFFF0, 0xFFFF)],
+    "astral": [(0x10000, 0x1007F), (0x1D400, 0x1D7FF), (0x1F300, 0x1F6FF), (0x20000, 0x2A6DF), (0xE0000, 0xE007F), (0x10FFF0, 0x10FFFF)],
+}
+# ... and where in the comment the character stands
+CHAR_POSITIONS = ["mid", "end", "start", "alone", "run", "before-hash", "before-blanks"]
+WORDS = ["section", "A", "scale 1.0 1.0 1.0", "k", "v", "note", "x=1", "7 3 0.5 0.5 0.5 1 6", "soma"]
+
+
+def draw_char(rng, stratum):
+    lo, hi = rng.choice(CHAR_STRATA[stratum])
+    return chr(rng.randint(lo, hi))
+
+
+def comment_with(rng, stratum, pos):
+    w, ch = (lambda: rng.choice(WORDS)), (lambda: draw_char(rng, stratum))
+    return {"mid": lambda: f"{w()} {w()}{ch()}{w()}", "end": lambda: f"{w()}{ch()}", "start": lambda: f"{ch()}{w()}", "alone": ch,
+            "run": lambda: f"{w()}{ch()}{ch()}{w()}{ch()}", "before-hash": lambda: f"{w()}{ch()}# {w()}",
+            "before-blanks": lambda: f"{w()}{ch()}" + " " * rng.randint(1, 3)}[pos]()
+
+
+# the blanks the Lean text model knows (`isWs`, "on ASCII"); the correspondence is compared where Python's notion of a blank comment /
+# leading blanks (str.isspace, str.lstrip: every Unicode blank) coincides with it.  The oracle judges every case of the family.
+MODEL_WS = " \t\n\r\x0b\x0c\x1c\x1d\x1e\x1f"
+
+
+def in_model_domain(c):
+    return c.lstrip() == c.lstrip(MODEL_WS) and c.isspace() == (c != "" and not c.strip(MODEL_WS))
+
+
+# family "size": the number of nodes by ORDER OF MAGNITUDE, up to whole-neuron / whole-brain reconstructions (some 10^5 nodes).  Everything a
+# reader or writer does in blocks, buffers, chunks or with a recursion shows only beyond some size; the shapes and values are the usual ones.
+# Such a tree is described by its generator arguments (the case stays small and replayable) and built where it is needed.
+BIG_SHAPES = ["chain", "stem", "star", "caterpillar", "binary", "random", "highdeg"]
+_EXPANDED = {}
+
+
+def tree_of(case):
+    """the tree description (n, pids, types, xyz, r) of a case: stored in full, or - family "size" - regenerated from its generator arguments"""
+    t = case["tree"]
+    if "gen" not in t:
+        return t
+    g = t["gen"]
+    key = repr(sorted(g.items()))
+    if key not in _EXPANDED:
+        import random
+
+        _EXPANDED.clear()   # one at a time: these are large
+        _EXPANDED[key] = gen.tree_case(random.Random(f"c01/size/{g['seed']}"), g["n"], g["shape"], numbering=g["numbering"], coords=g["coords"], types="any")
+    return _EXPANDED[key]
+
+
+def size_in_decade(rng, k, top=None):
+    """a size with k+1 digits: log-uniform in [10^k, 10^(k+1)) (or up to `top`), or the neighbour of a power of two in that range"""
+    lo, hi = 10 ** k, min(10 ** (k + 1) - 1, top or 10 ** (k + 1))
+    if rng.random() < 0.5:
+        return min(hi, int(lo * (hi / lo) ** rng.random()))
+    pows = [2 ** e + d for e in range(6, 20) for d in (-1, 0, 1, 2) if lo <= 2 ** e + d <= hi]
+    return rng.choice(pows) if pows else rng.randint(lo, hi)
+
+
 class RoundTrip(Suite):
     name = "c01.roundtrip"
 
@@ -187,7 +272,7 @@ class RoundTrip(Suite):
             used[0] += m
             return got
 
-        def mk(n, shape, coords=None, kind=None, forms=None, spell=None, before=None):
+        def mk(n, shape, coords=None, kind=None, forms=None, spell=None, before=None, chars=None):
             coords = coords or rng.choice(["dyadic", "grid4", "wild", "float"])
             t = gen.tree_case(rng, n, shape, numbering=rng.choice(["sorted", "root0"]), coords=coords if coords in ("dyadic", "grid4") else "float", types="any")
             if coords == "wild":
@@ -217,7 +302,22 @@ class RoundTrip(Suite):
             if before:
                 case["before"] = before
                 case["class"] = "after:" + "+".join(b["op"] for b in before) + "/" + case["class"]
+            if chars:
+                # three comments with characters of the stratum at three different positions, between ordinary ones (order is judged too)
+                pos = rng.sample(CHAR_POSITIONS, 3)
+                cm = [comment_with(rng, chars, p) for p in pos]
+                for _ in range(rng.randint(0, 2)):
+                    cm.insert(rng.randint(0, len(cm)), rng.choice(COMMENTS))
+                case["comments"], case["with_comments"] = cm, True
+                case["class"] = f"chars:{chars}@{'+'.join(pos)}/" + ("" if forms else case["kind"] + "/") + case["class"]
             return case
+
+        def mk_big(n, shape, kind):
+            g = {"seed": rng.getrandbits(32), "n": n, "shape": shape, "numbering": rng.choice(["sorted", "root0"]), "coords": rng.choice(["dyadic", "grid4", "float"])}
+            return {"class": f"size:1e{len(str(n)) - 1}/{kind}/{g['coords']}/{shape}/{g['numbering']}", "tree": {"gen": g, "n": n},
+                    "comments": [rng.choice(COMMENTS) for _ in range(rng.choice([0, 1, 2]))], "source": rng.choice([True, False, "my source"]),
+                    "with_comments": rng.random() < 0.85, "offset": rng.choice([0, 1, 1, 7, 10**6, 20000001]), "kind": kind, "passes": 1,
+                    "written_before": False, "big": n >= 5000}
 
         sizes = gen.sizes(tier, widen) + ([3000] if tier == "thorough" and not widen else [])
         for n in sizes:
@@ -255,6 +355,23 @@ class RoundTrip(Suite):
         for j, seq in enumerate(seqs):
             shape = gen.pick_shape(rng, k); k += 1
             out.append(mk(rng.choice(small), shape, kind=["text", "bytes", "path", "path-write"][j % 4], before=seq))
+        # family "chars" (see CHAR_STRATA).  Guaranteed share: every stratum of the repertoire, through every source kind over the run
+        kinds = ["text", "bytes", "path", "path-write", "textfile"]
+        j = rng.randrange(len(kinds))
+        for stratum in CHAR_STRATA:
+            for _ in range(5 if more else 2):
+                shape = gen.pick_shape(rng, k); k += 1
+                kind = kinds[j % len(kinds)]; j += 1
+                forms = (rng.choice(["str", "pathlike", "bytes"]),) * 2 if kind in ("path", "path-write") else None
+                out.append(mk(rng.choice(small), shape, kind=kind, forms=forms, chars=stratum))
+        # family "size" (see BIG_SHAPES).  Guaranteed share: one tree in each decade from 10^3 up to the 10^5 nodes of a whole-neuron
+        # reconstruction (10^2 is covered by the ordinary sizes), through a different source kind each
+        tops = {5: 140000 if not more else 200000}
+        j = rng.randrange(4)
+        for dec in (3, 4, 5):
+            for _ in range(2 if more and dec < 5 else 1):
+                n = size_in_decade(rng, dec, tops.get(dec))
+                out.append(mk_big(n, rng.choice(BIG_SHAPES), ["text", "bytes", "path", "path-write"][j % 4])); j += 1
         return out
 
     def run(self, case):
@@ -315,13 +432,13 @@ class RoundTrip(Suite):
     def _roundtrip(self, case, stage):
         from swcgeom.core import Tree
 
-        t = gen.make_tree(case["tree"], comments=list(case["comments"]))
-        if case.get("written_before", case["tree"]["n"] % 2 == 0):
+        tc = tree_of(case)
+        t = gen.make_tree(tc, comments=list(case["comments"]))
+        if case.get("written_before", tc["n"] % 2 == 0):
             # the tree that is written is DERIVED from a tree that was written before (a copy whose columns are then replaced,
             # as every transform does): the text must be that of the tree being written
-            n0 = case["tree"]["n"]
-            t0 = gen.make_tree(dict(case["tree"], xyz=[[c + 3.25 for c in q] for q in case["tree"]["xyz"]], r=[v + 0.5 for v in case["tree"]["r"]],
-                                    types=[(v + 1) % 8 for v in case["tree"]["types"]]), comments=list(case["comments"]))
+            t0 = gen.make_tree(dict(tc, xyz=[[c + 3.25 for c in q] for q in tc["xyz"]], r=[v + 0.5 for v in tc["r"]],
+                                    types=[(v + 1) % 8 for v in tc["types"]]), comments=list(case["comments"]))
             for off in {case["offset"], 0, 1}:
                 t0.to_swc(id_offset=off); t0.to_swc(source=case["source"], comments=case["with_comments"], id_offset=off)
             d = t0.copy()
@@ -383,10 +500,12 @@ class RoundTrip(Suite):
                 stage[0] = f"Tree.from_swc({src!r})"
                 back = Tree.from_swc(src)
                 stage[0] = "reading the result"
-                hist.append({"text_head": text[:300], "full_text": text if len(hist) == 0 and back.number_of_nodes() <= 80 else None, "n": back.number_of_nodes(), "pid": back.pid().tolist(), "type": back.type().tolist(),
-                             "id": back.id().tolist(),
-                             "x": back.x().astype(np.float64).tolist(), "y": back.y().astype(np.float64).tolist(),
-                             "z": back.z().astype(np.float64).tolist(), "r": back.r().astype(np.float64).tolist(),
+                # the columns of a large tree stay arrays (a stored finding then shows them abbreviated instead of 10^5 numbers per column)
+                ls = (lambda a: np.array(a)) if case.get("big") else (lambda a: a.tolist())
+                hist.append({"text_head": text[:300], "full_text": text if len(hist) == 0 and back.number_of_nodes() <= 80 else None, "n": back.number_of_nodes(), "pid": ls(back.pid()), "type": ls(back.type()),
+                             "id": ls(back.id()),
+                             "x": ls(back.x().astype(np.float64)), "y": ls(back.y().astype(np.float64)),
+                             "z": ls(back.z().astype(np.float64)), "r": ls(back.r().astype(np.float64)),
                              "comments": list(back.comments), "source_attr": back.source})
                 cur = back
             res = {"passes": hist, "text": text if len(text) < 4000 else text[:4000], "first_text": hist[0]["full_text"] if t.number_of_nodes() <= 80 else None,
@@ -404,9 +523,9 @@ class RoundTrip(Suite):
     def lines(self, case, res):
         from harness import swctext as st
 
-        if "exc" in res or not res.get("first_text"):
+        if "exc" in res or not res.get("first_text") or not all(in_model_domain(c) for c in case["comments"]):
             return []
-        t = case["tree"]
+        t = tree_of(case)
         n = t["n"]
         xyz = np.array(t["xyz"], dtype=np.float32)
         r = np.array(t["r"], dtype=np.float32)
@@ -451,7 +570,7 @@ class RoundTrip(Suite):
             hist = "after " + " + ".join(b["op"] for b in case["before"]) + " earlier in the process, " if case.get("before") else ""
             return [("roundtrip-raises", f"write→read raised {res['exc']}: {res.get('msg')} ({hist}during {res.get('stage', '?')}, kind {case['kind']}"
                                          + (f", path spelled {case['spell']['how']!r}" if case.get("spell") else "") + ")")]
-        t = case["tree"]
+        t = tree_of(case)
         n = t["n"]
         out = []
         xyz = np.array(t["xyz"], dtype=np.float32)
@@ -460,6 +579,7 @@ class RoundTrip(Suite):
         exp_comments = [c.lstrip() for c in case["comments"]] if case["with_comments"] else []
         cur_cols = cols
         for k, h in enumerate(res["passes"]):
+            h = {key: v.tolist() if isinstance(v, np.ndarray) else v for key, v in h.items()}
             if h["n"] != n:
                 return [("node-count", f"pass {k+1}: {h['n']} nodes read back, {n} written")]
             if h["pid"] != t["pids"]:
@@ -470,7 +590,7 @@ class RoundTrip(Suite):
                 out.append(("ids", f"pass {k+1}: ids are {h['id'][:6]}…"))
             nxt = {}
             for c in "xyzr":
-                want = np.array([np.float32(q4(v) / 10000.0) for v in cur_cols[c]], dtype=np.float32)
+                want = np.array([np.float32(q / 10000.0) for q in q4_column(cur_cols[c])], dtype=np.float32)
                 got = np.array(h[c], dtype=np.float32)
                 bad = [int(i) for i in np.nonzero(want != got)[0]
                        if not any(np.float32(q / 10000.0) == got[i] for q in q4_both(cur_cols[c][i]))]   # an exact tie may go either way
